@@ -2,7 +2,7 @@
 From Coq Require Import ZArith List.
 From Coq Require Extraction.
 From Coq Require Import ExtrOcamlBasic.
-From C20 Require Import Params Model.
+From C20 Require Import Params Model Model2.
 Extraction Language OCaml.
 Cd "ocaml".
 Extraction "model.ml" giv_multiplier giv_modulo giv_halfmod giv_ctor_normalises
@@ -11,5 +11,7 @@ Extraction "model.ml" giv_multiplier giv_modulo giv_halfmod giv_ctor_normalises
   general_randiter general_nonzero giv_randiter_size gfq_random gfq_nonzerorandom gf2_random poly_random poly_random_gfq
   bitsize rand_bool random_lessthan random_lessthan_2exp random_exact_2exp random_exact random_between
   nonzerorandom_2exp nonzerorandom_int random_between_2exp random_word nonzerorandom_word
-  rii_next rii_bits rii_init rii_step qfield_random giv_randiter_clamps ext_size ext_coeff ext_randiter modint_randiter ru_rand modru_random modru_nonzerorandom orc_of_list.
+  rii_next rii_bits rii_init rii_step qfield_random giv_randiter_clamps ext_size ext_coeff ext_randiter modint_randiter ru_rand modru_random modru_nonzerorandom orc_of_list
+  poly_random_resizes poly_random_into poly_random_gfq_into preq_degree poly_seq poly_seq_gfq
+  ri_ctor_size ri_ctor ri_step ri_run mii_ctor rii_ctor_seed modint_nonzero mg_reduc mgru_random mgru_nonzerorandom rm_mga_rand.
 Cd "..".
